@@ -198,39 +198,39 @@ type Oblig struct {
 }
 
 type VC struct {
-	eng         *Engine
-	fn          *ssa.Function
-	c           *Contract
-	mode        string
-	noOvf       bool
-	script      []string
-	obls        []*Oblig
-	n           int
-	epN         int
-	comps       map[string]*Comp
-	compOrder   []string
-	noName      int
-	specMode    int
-	writeLog    map[string]bool
-	externs     map[string]bool
-	inlined     map[string]bool
-	callsBy     map[string]bool
-	oblNames    map[string]int
-	entry       *State
-	lemmasUse   map[string]bool
-	curPos      string
-	ghostEvt    map[string]int
-	notes       []string
-	maxDepth    int
-	modelVals   []string // terms worth reporting in counterexamples
-	modelLbl    map[string]string
-	iters       map[*ssa.Range]*iterState
-	defs        map[string]string
-	inlineCount int
+	eng          *Engine
+	fn           *ssa.Function
+	c            *Contract
+	mode         string
+	noOvf        bool
+	script       []string
+	obls         []*Oblig
+	n            int
+	epN          int
+	comps        map[string]*Comp
+	compOrder    []string
+	noName       int
+	specMode     int
+	writeLog     map[string]bool
+	externs      map[string]bool
+	inlined      map[string]bool
+	callsBy      map[string]bool
+	oblNames     map[string]int
+	entry        *State
+	lemmasUse    map[string]bool
+	curPos       string
+	ghostEvt     map[string]int
+	notes        []string
+	maxDepth     int
+	modelVals    []string // terms worth reporting in counterexamples
+	modelLbl     map[string]string
+	iters        map[*ssa.Range]*iterState
+	defs         map[string]string
+	inlineCount  int
 	replayBounds []string
-	wrap        bool // math sort with exact modular semantics for + - * and conversions
-	specArith   int
-	boxOrigin   map[string]*Val
+	wrap         bool // math sort with exact modular semantics for + - * and conversions
+	specArith    int
+	boxOrigin    map[string]*Val
 }
 
 func newVC(e *Engine, fn *ssa.Function, c *Contract) *VC {
